@@ -222,6 +222,26 @@ def rows(F, R):
                         R.ob('C14.rows-exec', okg, {'row': inst, 'tag': tag, 'guard_called': bool(g), 'action_called': bool(a)})
                         if not okg:
                             R.find('C14.rows-exec', f, 'tag-mismatch:' + str(tag), 'front-end row tagged %s (guard=%s, action=%s) but the executor calls guard=%s action=%s' % (tag, hasG, hasA, bool(g), bool(a)), instance=inst)
+                    # back / back11: a row whose target is an explicit entry / fork / entry point must hand the submachine the event
+                    # wrapped in direct_entry_event (else the submachine is entered like a plain composite)
+                    tgt_t = F.strs[rowrec['tds']['Target']] if rowrec and 'Target' in rowrec['tds'] else ''
+                    explicit_target = ('::direct<' in tgt_t or '::entry_pt<' in tgt_t) and be in ('back', 'back11')
+                    if explicit_target:
+                        wrapped = False
+                        for e in ev:
+                            if e[0] != 'ENTRY': continue
+                            g = F.bykey.get(f.nodes[e[1]].get('fk'))
+                            todo = [g]; seen_ = 0
+                            while todo and seen_ < 4:
+                                seen_ += 1
+                                h = todo.pop()
+                                if h is None: continue
+                                for m_ in h.nodes:
+                                    if m_ and m_['k'] in ('ctor', 'cast') and 'direct_entry_event<' in (F.strs[m_['t']] if 't' in m_ else ''): wrapped = True
+                        R.anchor('explicit-target-exec:' + be)
+                        R.ob('C09.wrap', wrapped, {'func': f.q, 'row': inst})
+                        if not wrapped:
+                            R.find('C09.wrap', f, 'unwrapped', 'the target of this row is an explicit entry / fork / entry point but the entry call does not wrap the event in direct_entry_event: the named substates are not activated', instance=inst)
                     # the completion hook of the target state runs only after the target has been entered
                     pn = f.path_nodes(p)
                     hooks = [x for x in pn if f.nodes[x] and f.nodes[x]['k'] == 'call' and f.nodes[x].get('n') == 'on_state_entry_completed']
